@@ -303,10 +303,13 @@ def main():
             out_viol.append((v, rp))
 
     # ---- evidence
-    n_obl = sum(len(r['results']) for r in results if r['mode'] == 'proof')
-    n_ok = sum(len([x for x in r['results'] if x['status'] == 'SUCCESS']) for r in results if r['mode'] == 'proof')
+    proof_obls = [x for r in results if r['mode'] == 'proof' for x in r['results'] if 'VACUITY_CANARY' not in x['desc']]
+    n_obl = len(proof_obls)      # canaries are assertions that must FAIL; they are not obligations
+    n_ok = len([x for x in proof_obls if x['status'] == 'SUCCESS'])
     n_canary = sum(len([x for x in r['results'] if 'VACUITY_CANARY' in x['desc']]) for r in results if r['mode'] == 'proof')
-    n_obl -= n_canary   # canaries are assertions that must FAIL; they are not obligations
+    if n_ok != n_obl and not out_viol and not undecided:
+        bad = [x for x in proof_obls if x['status'] != 'SUCCESS'][:5]
+        undecided.append('UNDECIDED: %d obligation(s) neither discharged nor reported: %s' % (n_obl - n_ok, '; '.join('%s [%s] %s' % (x['id'], x['status'], x['desc'][:60]) for x in bad)))
     n_obl_b = sum(len(r['results']) for r in results if r['mode'] == 'bounded')
     labelled_ok = []
     for r in results:
